@@ -46,13 +46,16 @@ ALPHA = {
     # statements that FAIL (caught by the caller) - nothing changes, and what follows must still be committed
     "failing_select": ("select * from table_that_is_missing", set(), set(), set()),
     "executemany_fail": ("EM:insert into table_that_is_missing values (%s)|[[1],[2]]", set(), set(), set()),
+    # ... also a failing statement of the kind the library carries out in several steps inside a transaction of its own
+    "fail_create_multi": ("create table schema_that_is_missing.tt (v varchar(10)) comment = 'c'", set(), set(), set()),
+    "fail_comment": ("comment on table table_that_is_missing is 'x'", set(), set(), set()),
     "executemany_ok": ("EM:insert into t1 (a, b) values (%s, %s)|[[5,\"e\"],[6,\"f\"]]", {"t1"}, {"rows"}, set()),
     "begin": ("begin", {"!tx"}, {"tx"}, set()),
     "commit": ("commit", {"tx"}, set(), {"tx"}),
     "rollback": ("rollback", {"tx"}, set(), {"tx"}),
 }
-QUICK_FIRST = ["create_t1", "create_plain", "create_db2", "begin", "create_schema", "executemany_fail", "failing_select"]
-EXPECT_ERROR = {"failing_select", "executemany_fail"}
+QUICK_FIRST = ["create_t1", "create_plain", "create_db2", "begin", "create_schema", "executemany_fail", "failing_select", "fail_create_multi"]
+EXPECT_ERROR = {"failing_select", "executemany_fail", "fail_create_multi", "fail_comment"}
 
 
 def enabled(facts, sid):
@@ -81,6 +84,8 @@ def histories(depth, tier):
                     if tier == "quick" and d == 0 and sid not in QUICK_FIRST:
                         continue
                     if tier == "quick" and d == 1 and sid in ("create_plain", "create_schema") and h[0] != "begin":
+                        continue
+                    if tier == "quick" and d == 1 and (sid == "fail_comment" or (sid == "fail_create_multi" and h[0] not in ("begin", "create_t1"))):
                         continue
                     nh = h + [sid]
                     nxt.append((nh, frozenset(apply(facts, sid))))
